@@ -150,6 +150,7 @@ func ruleKeyUseGated(c *report.Ctx, signingOnly bool) {
 
 func runC03(c *report.Ctx) {
 	p := c.P
+	ruleBranchKeyAgreement(c) // signing re-derives the private key from the recorded path: the path must be the one the public key came from
 	ruleKeyUseGated(c, true)
 
 	// ---- (2) unlock scoped ---------------------------------------------------------------------------
